@@ -189,7 +189,10 @@ def trace_for_tlc(doc_index, sent, steps, final, doc):
     """the ndjson line for the trace specifications (uniform records)"""
     out = []
     for s in steps:
-        out.append({"k": s["k"], "ev": s["ev"], "ts": s["ts"], "gv": s["gv"], "obs": s["obs"], "micro": s["micro"],
-                    "elchk": s["elchk"], "pre": s["pre"], "egv": s["egv"]})
+        er = s.get("evrec")
+        evf = [val_str(er.get(k)) for k in ("name", "type", "sendid", "origin", "origintype", "invokeid", "data")] if er else []
+        out.append({"k": s["k"], "ev": s["ev"], "ts": s["ts"], "gv": s["gv"],
+                    "obs": [o for o in s["obs"] if o["k"] != "cancelinvoke"], "micro": s["micro"],
+                    "elchk": s["elchk"], "pre": s["pre"], "egv": s["egv"], "evf": evf})
     fin = sorted(x for x in (doc.ids.get(nm, 1 if nm.startswith("__id") else -1) for nm in (final or [])) if x != 1)
     return {"d": doc_index, "sent": sent, "steps": out, "final": fin, "hasfinal": final is not None}
